@@ -76,7 +76,7 @@ func main() {
 			Name:     "locks",
 			Cfg:      cfg,
 			MaxDepth: depth,
-			Deadline: cfg.Deadline(),
+			Deadline: cfg.Start.Add(cfg.Deadline().Sub(cfg.Start) * 8 / 10), // leave time for the schedules
 			Alphabet: func(d int, path []Op) []Op { return alpha },
 			Run: func(path []Op) vlib.RunResult {
 				res := runHistory(path, false)
